@@ -24,6 +24,7 @@ func init() {
 		Run:       runC12,
 		Imports: []Import{
 			{From: "C06.b", Match: "reset-after-success", As: "C12.f", Why: "a header whose height is published stays readable: it leaves the pending batch only after the flush that wrote it to the datastore returned nil (a batch released on a failed commit is in neither place while the commit is retried)"},
+			{From: "C17.f", Match: "pending-before-disk", As: "C12.g", Why: "a reader woken by the append of its header looks it up while the write loop may be committing the batch: the flush commits first and resets the pending batch afterwards, so a lookup that asks the pending batch BEFORE the datastore finds the header in one of the two; in the other order it can miss both"},
 			{From: "C04.c", Match: "advance-publishes", As: "C12.e", Why: "a reader that parked just before the head moved is woken by the publication of the new height (SetHeight walks the heights in between and releases their waiters); bumping the height without that walk leaves it parked although Height() has reached its height"},
 		},
 	})
